@@ -21,14 +21,14 @@ type extFamily struct {
 
 var extFamilies = []extFamily{
 	{"typographer", "typographer", "'\"-.<>9s a\n", nil, 4, 5},
-	{"typographer-decade", "typographer", "", []string{"'", "9", "0", "s", "a", " ", "\n", "# ", "\"", "."}, 4, 5},
+	{"typographer-decade", "typographer", "", []string{"'", "9", "s", "a", " ", "\n", "# ", "\""}, 4, 5},
 	{"linkify", "linkify", "", []string{"www.", "http://", "https://", "a", ".", "@", " ", "\n", "(", ")", "<", "&amp;", ";", "_", "~", "/", "?", "*"}, 3, 4},
 	{"table", "table", "a|-:\n \\`", nil, 5, 6},
-	{"footnote", "footnote", "", []string{"[^", "a", "]", ":", " ", "\n", "[^a]", "[^a]: ", "    ", "![", "b"}, 4, 5},
+	{"footnote", "footnote", "", []string{"[^", "a", "]", ":", " ", "\n", "[^a]", "[^a]: ", "    "}, 4, 5},
 	{"deflist", "deflist", "a:\n ~\t", nil, 5, 6},
 	{"strike", "strike", "~a \n*\\", nil, 5, 6},
-	{"tasklist", "tasklist", "", []string{"- ", "[ ]", "[x]", "[X]", " ", "a", "\n", "[", "1. ", "> "}, 4, 5},
-	{"cjk", "cjk", "", []string{"\xe3\x81\x82", "a", "\n", " ", "\\", "\xef\xbc\x8c", "\x80", "*", "\xe3\x80\x82", "."}, 4, 5},
+	{"tasklist", "tasklist", "", []string{"- ", "[ ]", "[x]", " ", "a", "\n", "[", "> "}, 4, 5},
+	{"cjk", "cjk", "", []string{"\xe3\x81\x82", "a", "\n", " ", "\\", "\xef\xbc\x8c", "\x80", "*"}, 4, 5},
 	{"cjkcss3", "cjkcss3", "", []string{"\xe3\x81\x82", "a", "\n", "\xef\xbc\x8c", "*", "\xe3\x80\x82", ".", "\xf0\x9f\x98\x80"}, 4, 5},
 	{"cjkesc", "cjkesc", "", []string{"\xe3\x81\x82", "a", "\\ ", "\\", " ", "*", "\n", "`"}, 4, 5},
 }
@@ -38,6 +38,11 @@ var attrTokens = []string{".x", "#i", "class=", "Class=", "CLASS=", "id=", "k=",
 
 // extFamilyJobs returns the jobs of the extension families. popts/ropts are the parser/renderer option
 // strings of the configurations; light halves the lengths (multi-conversion harnesses).
+// deepExtFamilies: the quick tier runs the extension families at their full quick length only for the checks
+// whose property is about what an extension's own syntax can do (C01 crash, C03 markup, C05 tree); the other
+// Convert-based checks run them one shorter.
+var deepExtFamilies = false
+
 func extFamilyJobs(entry string, thorough, light bool, popts, ropts string, only map[string]bool, extra ...interface{}) ([]interp.Job, string) {
 	var jobs []interp.Job
 	var names []string
@@ -49,7 +54,7 @@ func extFamilyJobs(entry string, thorough, light bool, popts, ropts string, only
 		if thorough {
 			n = f.LT
 		}
-		if light {
+		if light || (!thorough && !deepExtFamilies) {
 			n = f.LQ - 1
 		}
 		cfgs := []string{cfg(f.Ext, popts, ropts)}
@@ -106,12 +111,12 @@ type longUnit struct {
 }
 
 var longUnits = []longUnit{
-	{"p\n\n", "- a\n\n- b\n", 9},
-	{"- a\n", "\n- b\n\n  c\n", 11},
+	{"p\n\n", "- a\n\n- b\n", -1},
+	{"- a\n", "\n- b\n\n  c\n", -1},
 	{"a\n", "b\n===\n", 0},
-	{"> a\n", "> - b\n\n", 7},
-	{"# a\n\n", "# a #\n", 6},
-	{"[a]: b\n", "\n[a] [A]\n", 9},
+	{"> a\n", "> - b\n\n", -1},
+	{"# a\n\n", "# a #\n", -1},
+	{"[a]: b\n", "\n[a] [A]\n", -1},
 }
 
 func longDocJobs(entry string, thorough, light bool, cfgs []string, extra ...interface{}) ([]interp.Job, string) {
@@ -136,7 +141,11 @@ func longDocJobs(entry string, thorough, light bool, cfgs []string, extra ...int
 		for n := 0; n <= m; n += step {
 			c := cfgs[k%len(cfgs)]
 			k++
-			jobs = append(jobs, job(entry, append([]interface{}{"cfg", c, "rep", u.Unit, "repn", n, "seed", u.Tail, "pos", u.Pos, "window", 1}, extra...)...))
+			pos := u.Pos
+			if pos < 0 {
+				pos = len(u.Tail) // one symbolic byte appended
+			}
+			jobs = append(jobs, job(entry, append([]interface{}{"cfg", c, "rep", u.Unit, "repn", n, "seed", u.Tail, "pos", pos, "window", 1}, extra...)...))
 		}
 	}
 	return jobs, fmt.Sprintf("long documents: each unit of %q repeated n times for EVERY n in 0..%d (0..%d for the later units; step %d) in front of its tail, one fully symbolic byte in the tail, configurations %v in rotation", us, maxN, maxN/2, step, cfgs)
